@@ -135,6 +135,20 @@ static void run_wire(void)
                                 break;
                             }
                         }
+                        /* the same coordinates written by the OTHER writer: one fragment rebuilt from the rest into a 16-aligned
+                         * buffer the caller recycles (it still holds what the previous call - another stripe, another instance -
+                         * left there) has the serializer's bytes as well */
+                        if (cfg_tol(&c) >= 1 && c.be != EC_BACKEND_NULL) {
+                            static uint8_t *recycle; static uint64_t rcap;
+                            if (rcap < ef) { free(recycle); rcap = ef * 2 + 64; if (posix_memalign((void **)&recycle, 16, rcap)) abort(); memset(recycle, 0x5A, rcap); }
+                            int lost = (int)((uint64_t)li * 5 + (uint64_t)ci) % n; char *lst[64]; int cnt = 0;
+                            for (int f = 0; f < n; f++) if (f != lost) lst[cnt++] = f < c.k ? ed[f] : ep[f - c.k];
+                            int rr = liberasurecode_reconstruct_fragment(desc, lst, cnt, flen, lost, (char *)recycle);
+                            mon_count("evaluations", 1); mon_count("fragments_rebuilt_into_a_recycled_buffer", 1);
+                            if (rr != 0) mon_viol("C07", "reconstruct-failed", "reconstruct(%d) of a stripe encode just wrote returned %d", lost, rr);
+                            else if (memcmp(recycle, exp[lost], ef)) { uint64_t off = 0; while (recycle[off] == exp[lost][off]) off++;
+                                mon_viol("C07", "rebuilt-bytes-differ", "fragment %d rebuilt into a recycled buffer, byte %llu (%s): library %02x, reference serializer %02x (len=%llu)", lost, (unsigned long long)off, off < 80 ? "header" : "payload", recycle[off], exp[lost][off], (unsigned long long)len); }
+                        }
                         for (int f = 0; f < n; f++) free(exp[f]);
                         mon_distinct("nontrivial", mon_hash_u64(len, mon_hash_str(ck, (uint64_t)lm * 7 + (uint64_t)kind)));
                         if (li == 2 && ci % 37 == 0)
@@ -577,6 +591,19 @@ static int mismatch_ref(const uint8_t *frag, uint64_t P)
     return crc_std(frag + 80, P) != stored && crc_legacy(frag + 80, P) != stored;
 }
 
+/* an instance of the same shape created with ANOTHER checksum type (a reader that never writes): what it says about a
+ * fragment is a matter of the fragment's own header, not of the reader's settings */
+static int rd_desc = -1; static cfg_t rd_c;
+static int reader_for(const cfg_t *c)
+{
+    if (rd_desc > 0 && !memcmp(&rd_c, c, sizeof rd_c)) return rd_desc;
+    if (rd_desc > 0) liberasurecode_instance_destroy(rd_desc);
+    rd_c = *c; cfg_t c2 = *c; c2.ct = c->ct == CHKSUM_CRC32 ? CHKSUM_NONE : CHKSUM_CRC32;
+    rd_desc = lec_create(&c2);
+    return rd_desc;
+}
+static void reader_release(void) { if (rd_desc > 0) liberasurecode_instance_destroy(rd_desc); rd_desc = -1; memset(&rd_c, 0, sizeof rd_c); }
+
 static void check_mismatch(ctx_t *x, const uint8_t *frag, uint64_t flen, const char *what, int expect_valid_known, int expect_valid)
 {
     uint64_t P = ctx_payload_size(x, flen);      /* the checksum covers the payload, not the backend's trailer */
@@ -592,6 +619,11 @@ static void check_mismatch(ctx_t *x, const uint8_t *frag, uint64_t flen, const c
     if (want && !inv) mon_viol("C10", "mismatching-fragment-validated", "%s: is_invalid_fragment returned 0 for a fragment whose payload checksum mismatches", what);
     if (!want && expect_valid_known && expect_valid && inv) mon_viol("C10", "intact-fragment-rejected", "%s: is_invalid_fragment rejects an intact fragment", what);
     mon_count(want ? "mismatching_cases" : "matching_cases", 1);
+    { int rdd = reader_for(&x->c);
+      if (rdd > 0) { int invr = is_invalid_fragment(rdd, (char *)f); mon_count("evaluations", 1); mon_count("validations_through_a_reader_of_another_checksum_type", 1);
+                     if ((invr != 0) != (inv != 0)) mon_viol("C10", want ? "mismatching-fragment-validated" : "verdict-depends-on-reader", "%s: is_invalid_fragment says %d through the writing instance and %d through an instance of the same shape created with another checksum type (payload checksum %s)", what, inv, invr, want ? "mismatches" : "matches");
+                     char *one[1] = { (char *)&md }; int vs = rc == 0 ? liberasurecode_verify_stripe_metadata(rdd, one, 1) : -1;      /* the stripe check reads metadata as the query returned them */
+                     if (want && vs == 0) mon_viol("C10", "mismatching-fragment-validated", "%s: verify_stripe_metadata through an instance created with another checksum type passes a fragment whose payload checksum mismatches", what); } }
     /* the same bytes as an older release stamped them (the writer version lies outside the header checksum; releases before
      * 1.2.0 had no header seal but always wrote the payload checksum): the payload verdict does not depend on the stamp */
     static long nth;
@@ -799,6 +831,7 @@ static void run_checksum(void)
         }
     }
     set_legacy(0);
+    reader_release();
     /* instances with different checksum types (and twins) come and go in every order; each live one is used after every
      * step: fragments equal the model (checksum type and value included) and payload damage is flagged */
     { noise_stop();
@@ -1109,15 +1142,22 @@ static void run_validate(void)
                         for (int d = 0; d < nJ; d += (nJ > 8 ? 4 : 1)) {
                             if (in.be == EC_BACKEND_NULL) break;
                             if (in.be == EC_BACKEND_ISA_L_RS_VAND && !code_firstk_invertible(&X[I].cd, (nJ == 32 ? 0xffffffffu : (1u << nJ) - 1) & ~(1u << d))) continue;
+                            /* sup = 1: the destination is among the supplied fragments as well (the library then has nothing to
+                             * compute); the output buffer holds other bytes before the call in both variants */
+                            for (int sup = 0; sup < 2; sup++) {
                             char *lst[40]; int cnt = 0;
-                            for (int i = 0; i < nJ; i++) if (i != d) lst[cnt++] = (char *)s->frag[i];
+                            for (int i = 0; i < nJ; i++) if (i != d || sup) lst[cnt++] = (char *)s->frag[i];
+                            memset(g, 0xA7, s->flen);
                             int rc = liberasurecode_reconstruct_fragment(X[I].desc, lst, cnt, s->flen, d, (char *)g);
                             mon_count("evaluations", 1); mon_count("reconstructed_fragments_validated", 1);
-                            if (rc != 0) mon_viol("C12", "reconstruct-failed", "rc=%d", rc);
+                            if (rc != 0) mon_viol("C12", "reconstruct-failed", "rc=%d (destination %s)", rc, sup ? "also supplied" : "missing");
                             else {
-                                if (is_invalid_fragment(X[I].desc, (char *)g)) mon_viol("C12", "reconstructed-fragment-invalid", "fragment %d just reconstructed is reported invalid", d);
-                                char *one[1] = { (char *)g };
-                                if (liberasurecode_verify_stripe_metadata(X[I].desc, one, 1) != 0) mon_viol("C12", "reconstructed-fragment-fails-stripe-check", "fragment %d", d);
+                                if (is_invalid_fragment(X[I].desc, (char *)g)) mon_viol("C12", "reconstructed-fragment-invalid", "fragment %d just reconstructed (destination %s) is reported invalid", d, sup ? "also supplied" : "missing");
+                                fragment_metadata_t gm; int gr = liberasurecode_get_fragment_metadata((char *)g, &gm);
+                                if (gr != 0 || gm.chksum_mismatch) mon_viol("C12", "reconstructed-fragment-invalid", "fragment %d just reconstructed (destination %s): metadata query rc=%d, mismatch=%d", d, sup ? "also supplied" : "missing", gr, gr ? -1 : (int)gm.chksum_mismatch);
+                                char *one[1] = { (char *)&gm };
+                                if (gr == 0 && liberasurecode_verify_stripe_metadata(X[I].desc, one, 1) != 0) mon_viol("C12", "reconstructed-fragment-fails-stripe-check", "fragment %d", d);
+                            }
                             }
                         }
                     }
